@@ -22,8 +22,8 @@ import vlib
 
 LEVEL = "model_checking"
 # quick: everything up to 3x3 on the quick grids + a seeded sample of the 4x4 / 4xn cases
-BOUNDS = {"quick": dict(N=4, Level=1, sample4=110, chunk=40000, limit_ms=500),
-          "thorough": dict(N=4, Level=2, sample4=None, chunk=50000, limit_ms=1000)}
+BOUNDS = {"quick": dict(N=4, NP=6, Level=1, sample4=110, chunk=40000, limit_ms=500),
+          "thorough": dict(N=4, NP=7, Level=2, sample4=None, chunk=50000, limit_ms=1000)}
 TIMEOUT_OWNER = "C20"
 
 
@@ -31,7 +31,7 @@ TIMEOUT_OWNER = "C20"
 def generate(ctx, b):
     raw = ctx.path("factor-cases-raw.ndjson")
     res = ctx.tlc("Factorization", "Factorization.cfg", workers=4, timeout=3000, json_out=raw,
-                  consts={"N": str(b["N"]), "Level": str(b["Level"])}, label="factorization")
+                  consts={"N": str(b["N"]), "NP": str(b["NP"]), "Level": str(b["Level"])}, label="factorization")
     table, cases, seen = None, [], set()
     for line in open(raw):
         line = line.strip()
@@ -49,8 +49,9 @@ def generate(ctx, b):
     total = len(cases)
     if b["sample4"] is not None:
         # the (few) ill-conditioned cases with an exact condition number are always kept
-        small = [c for c in cases if max(c[1]["gen"]["m"], c[1]["gen"]["n"]) <= 3 or c[1]["condk"]]
-        big = [c for c in cases if max(c[1]["gen"]["m"], c[1]["gen"]["n"]) > 3 and not c[1]["condk"]]
+        keep = lambda c: c[1]["condk"] or c[1]["gen"]["cls"] == "partred"       # few, and each pattern matters
+        small = [c for c in cases if max(c[1]["gen"]["m"], c[1]["gen"]["n"]) <= 3 or keep(c)]
+        big = [c for c in cases if max(c[1]["gen"]["m"], c[1]["gen"]["n"]) > 3 and not keep(c)]
         rnd = random.Random(ctx.seed)
         # stratified by class so that every class contributes 4x4 members
         by = {}
@@ -96,6 +97,14 @@ def vacuity(cases, N):
             inc("graded_similarity")
         if d["condk"]:
             inc("ill_conditioned_with_exact_condition_number")
+        if d["rootk"]:
+            inc("exact_square_root")
+        if d["rootk"] and g["k"] >= 20:
+            inc("spd_condition_1e6")
+        if g["cls"] == "partred":
+            inc("partred_n%d" % g["n"])
+            if len(g["q"]) >= 3 and g["q"][0] == 1 and g["q"][1] == 1 and 0 in g["q"][2:]:
+                inc("partred_two_leading_reduced_then_unreduced")
         if d["suffpd"]:
             inc("sufficiently_pd")
         if d["spd"] and not d["suffpd"] and d["cholk"]:
@@ -105,7 +114,8 @@ def vacuity(cases, N):
         for r in d["routines"]:
             inc("routine:" + r)
     need = ["cls:spd", "cls:symrefl", "cls:compan", "cls:triang", "cls:bidiag", "cls:tridiag", "cls:hess", "cls:dense",
-            "cls:svdrefl", "cls:illcond", "cls:hilbert", "cls:lauchli", "ill_conditioned_with_exact_condition_number", "tall", "exact_cholesky", "graded_spd", "complex_pairs", "repeated_eigenvalues",
+            "cls:svdrefl", "cls:illcond", "cls:hilbert", "cls:lauchli", "cls:spdcond", "cls:partred", "exact_square_root", "spd_condition_1e6",
+            "partred_two_leading_reduced_then_unreduced", "partred_n5", "partred_n6", "ill_conditioned_with_exact_condition_number", "tall", "exact_cholesky", "graded_spd", "complex_pairs", "repeated_eigenvalues",
             "clustered_eigenvalues", "exact_singular_values", "rank_deficient", "zero_row_or_column", "sufficiently_pd",
             "symmetric_indefinite_or_unknown"] + ["n:%d" % i for i in range(1, N + 1)] + \
            ["routine:" + r for r in ("cholesky", "ldl", "ldl_forcepd", "gramschmidt", "bidiag", "tridiag", "hessenberg",
@@ -121,7 +131,8 @@ def tlc_verdicts(ctx, events_path, b, label):
     """run FactorizationTrace over one trace file; returns {index(1-based): verdict}"""
     out = ctx.path("verdicts-%s.ndjson" % label)
     res = ctx.tlc("FactorizationTrace", "FactorizationTrace.cfg", workers=1, timeout=3000, json_out=out,
-                  files={"factor_trace.ndjson": events_path}, consts={"N": str(b["N"]), "Level": str(b["Level"])},
+                  files={"factor_trace.ndjson": events_path},
+                  consts={"N": str(b["N"]), "NP": str(b["NP"]), "Level": str(b["Level"])},
                   label=label, heap="8g")
     verdicts = {}
     for d in vlib.iter_ndjson(out):
@@ -318,7 +329,7 @@ def run(ctx):
         "eigenvectors are demanded only for real eigenvalues; the real eigenvalues of a non-symmetric input are identified from the exact spectrum of the construction",
         "re-used buffers are InSitu objects left by a previous call of the same routine on another matrix of the same shape (with InitializeH set for the QR algorithm, as algorithm/newton does)"]
     return ctx.finish(
-        rule="one case per generator record of Factorization.tla (12 structure classes, sizes 1..N, exhaustive over the parameter grids of the tier; "
+        rule="one case per generator record of Factorization.tla (14 structure classes, sizes 1..N, exhaustive over the parameter grids of the tier; "
              "quick: all cases up to 3x3, all ill-conditioned cases, plus a seeded class-stratified sample of the other 4x4 / 4xn cases); one evaluation per "
              "(case, routine, option combination, element type, buffer mode); distinct = distinct generator records",
         evaluations=nev, distinct_nontrivial=len(cases), exhaustive=b["sample4"] is None,
@@ -331,7 +342,8 @@ def replay(ctx, path):
     d = v["detail"]
     b = dict(BOUNDS[ctx.tier])
     g = d["case"]["gen"]
-    b["N"] = max(4, g["m"], g["n"])
+    b["N"] = max(4, g["m"], g["n"]) if g["cls"] != "partred" else 4
+    b["NP"] = max(b["NP"], g["m"], g["n"])
     b["Level"] = 2
     table = json.dumps(d["contracts"])
     case = dict(d["case"])
